@@ -24,6 +24,7 @@ package main
 // Long texts travel run-length encoded: [[text, repeat], ...].
 
 import (
+	"context"
 	"encoding/json"
 	"io"
 	"net/http"
@@ -31,6 +32,7 @@ import (
 	"strconv"
 	"strings"
 	"sync"
+	"time"
 
 	cc "connectrpc.com/conformance/internal/app/connectconformance"
 	rs "connectrpc.com/conformance/internal/app/referenceserver"
@@ -662,7 +664,7 @@ func c12StreamGen(c *gen.Ctx) {
 	}()
 	chunks := []int{0, 0, 1, 7, 512, 4095, 4096, 4097, 65536}
 	pipeLong := 0
-	for round, rounds := 0, 3; round < rounds; round++ {
+	for round, rounds := 0, 5; round < rounds; round++ {
 		for pi, pad := range pads {
 			n := r.Range(2, 5)
 			var reqs []c12OvReq
@@ -691,7 +693,7 @@ func c12StreamGen(c *gen.Ctx) {
 			}
 			// a third through a pipe; the long lines through a pipe are few in the quick tier (a
 			// stalled server is only found by waiting for it)
-			if (pi+round)%3 == 0 && (c.Thorough() || pad < 60000 || pipeLong < 6) {
+			if (pi+round)%3 == 0 && (c.Thorough() || pad < 60000 || pipeLong < 4) {
 				in.Pipe = true
 				if pad >= 60000 {
 					pipeLong++
@@ -709,4 +711,168 @@ func c12StreamGen(c *gen.Ctx) {
 		}
 	}
 	c.DoParallel("stream", ins, 8)
+}
+
+// ---------------------------------------------------------------- overlap on the REAL server
+//
+//   realoverlap : {srv, reqs:[A,B], procB, sched:[[0,0],[0,1],[1,1],[1,0]]}
+//
+// The real reference server (createServer, reference mode, HTTP/2 with or without TLS; c12real.go)
+// serves request A - a full-duplex BidiStream with a declared request trailer, which stays inside
+// the handler chain until its request body ends - and, while A is inside (the client has read
+// A's first response message: a logical barrier), request B of another test case over the same
+// connection from start to end; then A's request body ends. The server's stderr is read after
+// each phase and every line attributed by the real runTestCasesForServer. The result has the
+// shape of op overlap (events enter A, enter B, leave B, leave A) and is judged like it.
+
+type c12RealOverlapIn struct {
+	Srv   int        `json:"srv"`
+	Reqs  []c12OvReq `json:"reqs"`
+	ProcB string     `json:"procB"`
+	Sched [][]int    `json:"sched"`
+}
+
+func init() {
+	gen.RegisterOp("c12", "realoverlap", func(c *gen.Ctx, raw json.RawMessage) any {
+		return c12RealOverlap(c, gen.Into[c12RealOverlapIn](raw))
+	})
+}
+
+func c12RealOverlap(c *gen.Ctx, in c12RealOverlapIn) c12OverlapOut {
+	out := c12OverlapOut{Steps: []c12OvStep{}, Reqs: []c12OvReqObs{}}
+	evs := [][]int{{0, 0}, {0, 1}, {1, 1}, {1, 0}}
+	stuck := func(why string) c12OverlapOut {
+		out.Steps = append(out.Steps, c12OvStep{Ev: evs[len(out.Steps)%4], Lines: [][2]string{{"", "other:" + why}}, Raw: [][3]string{}, Stuck: true})
+		return out
+	}
+	if len(in.Reqs) != 2 {
+		return stuck("two requests expected")
+	}
+	qa, qb := in.Reqs[0], in.Reqs[1]
+	if err := c12GetCerts(); err != nil {
+		return stuck(err.Error())
+	}
+	var clientCA []byte
+	if qa.A[6] == 1 {
+		clientCA = c12Certs.clientCert
+	}
+	srv, err := rs.VerifC12StartReal(int32(in.Srv), qa.A[5] == 1, c12Certs.serverCert, c12Certs.serverKey, clientCA)
+	if err != nil {
+		return stuck(err.Error())
+	}
+	stopped := false
+	defer func() {
+		if !stopped {
+			srv.Stop()
+		}
+	}()
+	tr, err := c12NewTransport(qa.A)
+	if err != nil {
+		return stuck(err.Error())
+	}
+	defer tr.close()
+	ctx, cancel := context.WithTimeout(context.Background(), 60*time.Second)
+	defer cancel()
+	inA := c12RealIn{Srv: in.Srv, E: qa.E, A: qa.A, V: qa.V, Proc: "BidiStream", Full: true, Name: qa.Name, Times: 1, Trailers: qa.Trailers}
+	inB := c12RealIn{Srv: in.Srv, E: qb.E, A: qb.A, V: qb.V, Proc: in.ProcB, Name: qb.Name, Times: 1, Trailers: qb.Trailers}
+	batch := c12Batch(qa.Name, qb.Name)
+	step := func(k int, stderr string) {
+		st := c12OvStep{Ev: evs[k], Lines: [][2]string{}, Raw: [][3]string{}}
+		lines, raw := c12ReadStderr(batch, stderr)
+		st.Raw = raw
+		c.E.Add("stderr-lines-read-by-the-real-runner", len(raw))
+		for _, l := range lines {
+			if !l.Prefixed {
+				st.Lines = append(st.Lines, [2]string{"", "other:" + l.Msg})
+			} else {
+				st.Lines = append(st.Lines, [2]string{l.Prefix, c12Class(l.Msg)})
+			}
+		}
+		out.Steps = append(out.Steps, st)
+	}
+	inside := make(chan struct{})
+	resume := make(chan struct{})
+	doneA := make(chan c12RealObs, 1)
+	go func() {
+		var once sync.Once
+		ctxA := context.WithValue(ctx, c12MidKey{}, func() {
+			once.Do(func() {
+				close(inside)
+				select {
+				case <-resume:
+				case <-ctx.Done():
+				}
+			})
+		})
+		doneA <- c12RealExchange(ctxA, tr.rt, srv.Addr, inA, c12OvRender(qa))
+	}()
+	var obsA, obsB c12RealObs
+	select {
+	case <-inside:
+	case obsA = <-doneA:
+		return stuck("request A ended before it was inside the handler: " + obsA.Err)
+	case <-ctx.Done():
+		return stuck("request A did not get inside the handler")
+	}
+	step(0, srv.Stderr())
+	obsB = c12RealExchange(ctx, tr.rt, srv.Addr, inB, c12OvRender(qb))
+	step(1, srv.Stderr())
+	step(2, "")
+	close(resume)
+	select {
+	case obsA = <-doneA:
+	case <-ctx.Done():
+		return stuck("request A did not end")
+	}
+	tr.close()
+	rest := srv.Stderr() + srv.Stop()
+	stopped = true
+	step(3, rest)
+	for _, o := range []c12RealObs{obsA, obsB} {
+		ro := c12OvReqObs{Started: true, Called: o.OK, Done: o.Err == "", Ms: o.Ms, Status: o.Status, Error: !o.OK, Seen: [][2]string{}}
+		if o.Err != "" {
+			ro.Seen = append(ro.Seen, [2]string{"exchange-failed", o.Err})
+			c.E.Count("realoverlap:exchange-failed")
+		}
+		out.Reqs = append(out.Reqs, ro)
+	}
+	c.E.Count("realoverlap:proc:" + in.ProcB)
+	return out
+}
+
+func c12RealOverlapGen(c *gen.Ctx) {
+	r := c.R
+	var ins []any
+	transports := []c12RealTransport{{2, 1, 0, 0}, {2, 1, 1, 0}, {2, 1, 1, 1}} // HTTP/2: h2c, TLS, TLS with client certificate
+	rounds := 2
+	if c.Thorough() {
+		rounds = 12
+	}
+	for round := 0; round < rounds; round++ {
+		for _, t := range transports {
+			for _, p := range c12RealProcs {
+				protoA, protoB := r.Intn(3), r.Intn(3)
+				if p.get {
+					protoB = 0
+				}
+				a := [7]int{t.version, 0, protoA, r.Intn(2), r.Intn(6), t.tls, t.cert}
+				b := [7]int{t.version, c12B(p.get), protoB, r.Intn(2), r.Intn(6), t.tls, t.cert}
+				qa := c12OvReq{E: a, A: a, V: [3]int{1, r.Intn(2), r.Intn(2)}, Name: "RealOverlap/stream", Trailers: r.Range(1, 2)}
+				qb := c12OvReq{E: b, A: b, V: [3]int{c12B(c12Streaming(p.proc)), r.Intn(2), r.Intn(2)}, Name: "RealOverlap/" + p.proc}
+				switch r.Intn(4) {
+				case 0: // B deviates in one aspect
+					d := gen.Pick(r, []int{0, 2, 3, 4})
+					qb.E[d] = (qb.A[d] + 1) % c12Dims[d]
+				case 1: // A deviates in one aspect as well
+					d := gen.Pick(r, []int{0, 3, 4})
+					qa.E[d] = (qa.A[d] + 1) % c12Dims[d]
+				case 2: // the same test case twice
+					qb.Name = qa.Name
+				}
+				ins = append(ins, c12RealOverlapIn{Srv: t.srv, Reqs: []c12OvReq{qa, qb}, ProcB: p.proc, Sched: [][]int{{0, 0}, {0, 1}, {1, 1}, {1, 0}}})
+				c.E.Count("kind:real-overlap")
+			}
+		}
+	}
+	c.DoParallel("realoverlap", ins, 8)
 }
